@@ -72,6 +72,18 @@ Definition schema_impls_ok (S : schema) : bool :=
                      | _ => true
                      end) (s_types S).
 
+(** a non-null input (directive argument, input object field) has no [null] default: for these two
+    kinds of location TypeInfo records "has a default" only for a default other than null, the
+    specification for any default; they differ on nothing else *)
+Definition default_ok (d : input_def) : bool :=
+  negb (is_nonnull (in_type d)) || match in_default d with DNull => false | _ => true end.
+Definition schema_defaults_ok (S : schema) : bool :=
+  forallb (fun nt => match t_body (snd nt) with
+                     | TInput defs => forallb (fun nd => default_ok (snd nd)) defs
+                     | _ => true
+                     end) (s_types S)
+  && forallb (fun nd => forallb (fun a => default_ok (snd a)) (dd_args (snd nd))) (s_directives S).
+
 (** every field selection of the document has a definition (5.3.1 holds and every selection set has
     a known parent type) *)
 Definition fields_defined (S : schema) (F : features) (D : document) : bool :=
